@@ -190,7 +190,9 @@ class Interp:
         self.routes = set()
         self.mut_ops = 0
         self.flags = set()
-        self.check_cb = prop in ('C02', 'C05', 'C07') or True
+        self.life_ok = False       # on_remove scripts allowed right now
+        self.in_life = 0
+        self.nremoved = Counter()
 
     # ---- recording from actors
     def cb(self, kind, label, *rest):
@@ -203,6 +205,23 @@ class Interp:
             entry = (kind, label) + tuple(rest)
         self.trace.add('cb', *entry)
         self.log.append((self.depth, entry))
+        if (kind == 'life' and rest[0] == 'on_remove' and self.life_ok
+                and self.depth == 0):       # (reaping of process() itself)
+            n = self.nremoved[label]
+            self.nremoved[label] += 1
+            script = self.sc.get('scripts', {}).get(f'rm:{label}:{n}')
+            if script:
+                # a cascade: on_remove asks for further (deferred) deletions
+                self.probes['request_in_on_remove'] += 1
+                self.depth += 1
+                self.in_life += 1
+                try:
+                    for op in script:
+                        if op[0] in ('delete', 'probe'):
+                            self.exec_op(op, nested=True)
+                finally:
+                    self.in_life -= 1
+                    self.depth -= 1
 
     def proc_called(self, proc, dt):
         label = proc._label
@@ -287,7 +306,8 @@ class Interp:
             self.stats['skipped'] += 1
             self.trace.add('skip')
             return
-        self.sweep()
+        if not self.in_life:
+            self.sweep()
 
     def call(self, thunk, expect_exc=(), owner=('C01',), what=''):
         """Run a desper call; unexpected exceptions are violations."""
@@ -754,6 +774,7 @@ class Interp:
         self.stale.clear()
         self.emit(groups, exp)
         boom = None
+        self.life_ok = True
         try:
             with kernel.budget(OP_BUDGET):
                 self.w.process(dt)
@@ -772,6 +793,8 @@ class Interp:
                 kind = 'process_raised_again'
             self.fail(owner, kind, f'process({dt}) raised '
                       f'{type(e).__name__}: {e}')
+        finally:
+            self.life_ok = False
         actual = [e for d, e in self.log[start:] if d == self.depth]
         # lifecycle group first, then processors in model order
         nlife = sum(len(g[0]) for g in groups)
@@ -1492,6 +1515,19 @@ def generate(prop, run_seed, tier='quick', tolerate=frozenset()):
                     if script:
                         scripts[f'proc:{pi}:{cnt}'] = script
         sh.apply(op)
+    # cascades: an on_remove callback asks for the deferred deletion of
+    # another entity while the deletion pass of process() is running
+    cascade_p = {'C05': .45, 'C02': .15, 'C01': .1}.get(prop, 0)
+    if crng.random() < cascade_p:
+        handlers = [i for i, c in enumerate(cfg['insts'])
+                    if cfg['classes'][c].get('deco')
+                    or cfg['classes'][c].get('ctrl')
+                    or cfg['classes'][c]['bases']]
+        for i in rng.sample(handlers, min(len(handlers), rng.randint(1, 3))):
+            for k in range(rng.randint(1, 2)):
+                scripts[f'rm:c{i}:{k}'] = [
+                    ['delete', rng.choice(cfg['ids'])]
+                    for _ in range(rng.randint(1, 2))]
     return {'format': 1, 'engine': 'world', 'config': cfg, 'ops': ops,
             'scripts': scripts}
 
@@ -1582,7 +1618,8 @@ PROBES = {
     'C05': ['touch.remove_last_component', 'touch.remove_some', 'touch.add',
             'touch.delete_again', 'touch.delete_immediate',
             'frames_after_failure', 'reap>=2_entities_one_frame',
-            'request_in_processor', 'frame_failed_by_processor'],
+            'request_in_processor', 'request_in_on_remove',
+            'frame_failed_by_processor'],
     'C06': ['diamond_query', 'exact_and_subtype_both_attached',
             'late_subclass_created',
             'remove_by_base_with_two_subtype_matches',
